@@ -17,7 +17,7 @@ func zzH17f() {
 	kind := zzNondetChoice("stanza-kind", 9)
 	adv := config.ZZKindInterface("lan0", kind, epoch)
 	st := zzState{fwd: zzNondetBool("forwarding")}
-	h := &Handler{ll: log.New(io.Discard, "", 0), state: st, ifaces: []config.Interface{adv}}
+	h := NewHandler(log.New(io.Discard, "", 0), st, config.Config{Interfaces: []config.Interface{adv}}, nil) // the real constructor (routes are recorded, not served)
 	zzEncoded, zzErrors = nil, nil
 	h.interfaces(zzWriter{}, nil) // must not panic (implicit obligation)
 	zzAssert(len(zzEncoded)+len(zzErrors) == 1, "one-response-body-or-one-error")
